@@ -225,12 +225,14 @@ def corruption_refused(hrp: Str, addr: Str, *, orig: Str) -> (Optional(Int), Opt
 @contract('bitcoin.segwit_addr:encode', name='segwit_encode_bip173', prop=P)
 def segwit_encode_bip173(hrp: Str, witver: Int, witprog: Bytes) -> Optional(Str):
     """BOUNDED: a version-0 program of 20 or 32 bytes (and versions 1..16 with 2..40 bytes) is encoded to the
-    lower-case BIP173 address, which decodes back to version and program"""
+    lower-case BIP173 address, which decodes back to version and program; with a prefix so long that the string would
+    exceed 90 characters nothing is returned"""
     option(bounded=1500)
     requires(0 <= witver and witver <= 16 and 2 <= len(witprog) and len(witprog) <= 40
              and (witver != 0 or len(witprog) == 20 or len(witprog) == 32))
-    ensures(result == ref_bech32_encode(hrp, witver, witprog) and result == result.lower()
-            and ref_bech32_decode(hrp, result) == (witver, bytes(witprog)))
+    ensures(ite(len(ref_bech32_encode(hrp, witver, witprog)) > 90, result is None,
+                result == ref_bech32_encode(hrp, witver, witprog) and result == result.lower()
+                and ref_bech32_decode(hrp, result) == (witver, bytes(witprog))))
 
 
 import itertools as _it
@@ -247,7 +249,45 @@ def _hrp(rng):
     r = rng.random()
     if r < 0.75:
         return rng.choice(['bc', 'tb', 'bcrt'])
-    return ''.join(chr(rng.randint(33, 126)) for _ in range(rng.randint(1, 10))).lower().replace('1', 'x') or 'a'
+    # other prefixes, among them long ones (1..83 characters are allowed; the 90-character limit on the whole string is
+    # only reached with them)
+    n = rng.randint(1, 10) if r < 0.9 else rng.choice([30, 31, 50, 51, 52, 60, 83, rng.randint(11, 83)])
+    return ''.join(chr(rng.randint(33, 126)) for _ in range(n)).lower().replace('1', 'x') or 'a'
+
+
+_GEN = (0x3b6a57b2, 0x26508e6d, 0x1ea119fa, 0x3d4233dd, 0x2a1462b3)
+
+
+def _pyint_polymod(values):
+    """the BIP173 reference recurrence on unbounded Python integers (what an implementation computes when a value
+    outside 0..31, e.g. the -1 of a failed alphabet lookup, reaches it)"""
+    chk = 1
+    for v in values:
+        top = chk >> 25
+        chk = (chk & 0x1ffffff) << 5 ^ v
+        for i in range(5):
+            chk ^= _GEN[i] if ((top >> i) & 1) else 0
+    return chk
+
+
+def _foreign_with_solved_checksum(rng):
+    """an address in which one data character is NOT in the Bech32 alphabet and whose last six characters are chosen so
+    that a checksum computation fed with the failed lookup (-1) still comes out right: BIP173 refuses it for the
+    character alone; a decoder that trusts the checksum to catch foreign characters accepts it"""
+    hrp, a = _valid(rng)
+    pos = len(hrp) + 1
+    body = [(_B32.find(c)) for c in a[pos:]]
+    if len(body) < 8:
+        return hrp, a
+    p = rng.randrange(0, len(body) - 6)
+    body[p] = -1
+    exp = [ord(c) >> 5 for c in hrp] + [0] + [ord(c) & 31 for c in hrp]
+    pm = _pyint_polymod(exp + body[:-6] + [0] * 6) ^ 1
+    chk = [(pm >> 5 * (5 - i)) & 31 for i in range(6)]
+    if _pyint_polymod(exp + body[:-6] + chk) != 1:
+        return hrp, a
+    foreign = rng.choice('bio')
+    return hrp, a[:pos] + ''.join(foreign if v < 0 else _B32[v] for v in body[:-6] + chk)
 
 
 def _valid(rng, hrp=None):
@@ -277,7 +317,9 @@ def _single_subst(rng):
 
 def _gen_decode(rng):
     r = rng.random()
-    if r < 0.15:
+    if r < 0.06:
+        hrp, a = _foreign_with_solved_checksum(rng)
+    elif r < 0.15:
         hrp, a = _valid(rng)
     elif r < 0.55:
         hrp, _, a = _single_subst(rng)
